@@ -577,6 +577,8 @@ pub fn run(cx: &mut Ctx) {
     let _ = Src::loc::<syn::Expr>;
     lexical_rules(cx, &up, &w);
     crate::rules::float_rules::exact_integer_test(cx, "C11.N1");
+    // string / bytes constants are written by the escape module: its layout must announce the length it writes
+    crate::rules::c16::escape_layout_rules(cx, "C11");
 }
 
 /// C11.K1 / F1 / F2: the rendering is re-lexed into the tokens that were meant.
